@@ -24,6 +24,7 @@ summary = {
  "C19":"bit-position arithmetic of builder and prober is the same expression; hash-domain agreement at every DoesNotHave call site",
  "C20":"complement constant / suffix width agreement, field-sequence agreement of the codecs, header size bound",
  "C21":"equal-key tie-break keeps the left (earlier) input; balanced construction preserves input order",
+ "C22":"publication order of the lock-free insert (own forward pointer stored before the linking CAS, bottom-up), CAS-only writes to reachable nodes, single-word value published after its bytes, arena offsets from the reserving Add, equal-key test after every search, findNear modes",
  "C23":"IV provenance (fresh or offset-derived, never stored), encrypt/decrypt guard agreement, key-mismatch check before any write, data keys never removed",
  "C24":"SinceTs wiring, txn bits cleared in backup, Load raises nextTxnTs, single-snapshot rule",
  "C25":"one read timestamp per run, single Send caller, half-open range comparison",
@@ -47,7 +48,6 @@ props = [json.loads(l) for l in open("properties.jsonl")]
 checks, na = [], []
 NA = {
  "C18":"round trip over data-dependent encodings (prefix compression, block boundaries, compression, checksums) for all entry sequences: no clause is visible in the shape of the code beyond footer layouts that the existing table tests already pin; declined rather than claimed through a brittle proxy",
- "C22":"linearizability of a lock-free CAS structure quantifies over schedules and memory orderings; the only structural clause (atomic access to tower/value words) is already enforced by the Go type system",
 }
 for p in props:
     i = p["id"]
